@@ -64,6 +64,7 @@ class Opts:
         self.pub_bases = False
         self.p_priv_item = None      # probability of a private type / enum / function (default: p_priv)
         self.static_fns = True
+        self.p_underscore = 0.0      # probability that a function gets a `_`-prefixed ("internal") name
         self.int_args_only = False   # arguments / returns that travel in one integer register (O4 execution)
         self.p_ptr_forward = 0.3
         self.p_cc = 0.3
@@ -407,7 +408,7 @@ class WorldGen:
         if rng.random() < o.p_impl:
             fns = []
             for i in range(rng.randint(1, 3)):
-                fname = self.fresh('m')
+                fname = self.fresh('_m' if rng.random() < o.p_underscore else 'm')
                 f, fpub = self.function(m, fname, False)
                 fns.append(f)
                 if fpub: pubfns.append(fname)
@@ -436,7 +437,7 @@ class WorldGen:
         n_new = rng.randint(0 if inherited else 1, 3)
         start_new = max(pos, inherited_len)
         for i in range(n_new):
-            name = self.fresh('v')
+            name = self.fresh('_v' if rng.random() < o.p_underscore else 'v')
             f, _ = self.function(m, name, True)
             target = pos
             if i == 0 and start_new > pos:
